@@ -21,7 +21,7 @@ func init() {
 			NotDecided:  "the analysis is over the size *shape* (linear in the numbers of elements); it assumes the encoder runs with the sender's own options object and that the next hop has the session's address family; it does not decide that the bytes written are the right bytes (C17).",
 			TrustedBase: stdTrusted,
 		},
-		Run:      runC18,
+		Run: runC18,
 		Controls: []Control{
 			{Name: "budget-from-estimate-only", File: "protocols/bgp/server/update_sender.go", Old: "\tif wireLen := pathAttrs.SerializedLength(u.options); wireLen > attrLen {\n\t\tattrLen = wireLen\n\t}\n", New: "", Expect: "reserve-covers-attributes"},
 			{Name: "addpath-charge-follows-rx", File: "protocols/bgp/server/update_sender.go", Old: "\t\tif u.options.UseAddPath {\n\t\t\tnlriLen += packet.PathIdentifierLen", New: "\t\tif u.addressFamily.addPathRX {\n\t\t\tnlriLen += packet.PathIdentifierLen", Expect: "prefix-charge-covers-nlri"},
